@@ -220,9 +220,28 @@ def terminatorInsideQuotes (s : Bytes) : Bool :=
       else go rest (some q)
   go s none
 
+/-- does a run execute a handler whose script uses the streaming block calls (header / data)?  Such a unit may leave a
+block unfinished, which makes the framing of a joint message a case of its own -/
+def hasOpenBlock (cmds : List Cmd) (run : List String) : Bool :=
+  run.any (fun t => t.startsWith "H" &&
+    (let tag := (((t.drop 1).toString.splitOn ":").headD "").toInt?.getD 0
+     ((cmds.find? (fun c => c.tag == tag)).map (·.script) |>.getD []).any (fun o => match o with | .rBlockHeader _ | .rBlockData _ => true | _ => false)))
+
+/-- PU case: is the experiment conclusive on syntactic grounds?  Unit 1 is a unit of its own in the joint message (no open
+quote / unfinished block swallowing the ';'), unit 2 has a well-formed absolute or common header and ends at the line feed -/
+def puConclusive (inp : List String) : Bool :=
+  let u1 := (unhex ((splitBar (inp.drop 4)).1.headD "-")).getD []
+  let u2 := (unhex ((splitBar (inp.drop 4)).2.headD "-")).getD []
+  let du := Parser.detectUnit (u1 ++ [59] ++ u2 ++ [10])
+  let du2 := Parser.detectUnit (u2 ++ [10])
+  let hdrOk := du2.header.type == .compoundHeader ∨ du2.header.type == .compoundQueryHeader ∨
+               du2.header.type == .commonHeader ∨ du2.header.type == .commonQueryHeader
+  du.consumed == u1.length + 1 && du.term == .semicolon && hdrOk && (u2.head? == some 58 || u2.head? == some 42) &&
+  du2.header.ptr == 0 && du2.term == .nl && du2.consumed == u2.length + 1
+
 def judgeParse (mode : String) (cmds : List Cmd) (inp : List String) (obs : List String) : List String :=
   let (a, b) := splitBar (obs.map (fun t => if t == "||" then "|" else t))
-  let base := (judgeRun cmds a ++ judgeBlocks cmds a ++ (if mode == "P" then [] else judgeRun cmds b)).eraseDups
+  let base := (judgeRun cmds a ++ judgeBlocks cmds a ++ (if mode == "P" ∨ mode == "PU" then [] else judgeRun cmds b)).eraseDups
   let rel :=
     if mode == "P8" then
       let (e1, w1, t1) := normalise a; let (e2, w2, t2) := normalise b
@@ -232,6 +251,38 @@ def judgeParse (mode : String) (cmds : List Cmd) (inp : List String) (obs : List
                (if t1 != t2 then ["C08.final_state_depends_on_segmentation"] else [])
       -- known design limitation: the scan for a message terminator does not know about quoted strings
       if !r.isEmpty ∧ terminatorInsideQuotes stream then ["C08.terminator_inside_quotes"] else r
+    else if mode == "PU" then
+      -- three runs: u1;u2 in one message | u1 alone | u2 alone on a fresh context with run 2's registers and queue
+      let runs := (obs.foldl (fun (acc : List (List String)) t => if t == "||" then acc ++ [[]] else
+                      match acc.reverse with | [] => [[t]] | l :: r => (r.reverse ++ [l ++ [t]])) [[]])
+      match runs with
+      | [r1, r2, r3] =>
+        let isEv := fun (t : String) => !(t.startsWith "P" || t.startsWith "W" || t.startsWith "F" || t.startsWith "R")
+        let (e1, w1, t1) := normalise r1; let (e2, w2, _) := normalise r2; let (e3, w3, t3) := normalise r3
+        let e1 := e1.filter isEv; let e2 := e2.filter isEv; let e3 := e3.filter isEv
+        -- conclusive only when both units stand on their own syntactically and unit 1 did in the joint message what it does alone
+        if !puConclusive inp then [] else
+        if e1.take e2.length != e2 then [] else
+        let codes := fun (t : List String) => t.map (fun x => if x.startsWith "D" then
+            "D" ++ ",".intercalate (((x.drop 1).toString.splitOn ",").map (fun e => (e.splitOn ":").headD "")) else x)
+        -- offsets inside the message (Y tokens) are positions, not behaviour
+        let noOff := fun (l : List String) => l.map (fun x => if x.startsWith "Y" then
+            (match x.splitOn ":" with | [a, _, c] => a ++ ":" ++ c | _ => x) else x)
+        let e1 := noOff e1; let e2 := noOff e2; let e3 := noOff e3
+        if e1.take e2.length != e2 then [] else
+        let codes := fun (t : List String) => t.map (fun x => if x.startsWith "D" then
+            "D" ++ ",".intercalate (((x.drop 1).toString.splitOn ",").map (fun e => (e.splitOn ":").headD "")) else x)
+        let nl := bytesOf Gen.LINE_ENDING
+        let strip := fun (w : Bytes) => if w.length ≥ nl.length ∧ w.drop (w.length - nl.length) == nl then w.take (w.length - nl.length) else w
+        let o1 := strip w2; let o2 := strip w3
+        let wantW := if o1.isEmpty ∧ o2.isEmpty then (if w2.isEmpty ∧ w3.isEmpty then [] else nl)
+                     else o1 ++ (if !o1.isEmpty ∧ !o2.isEmpty then [59] else []) ++ o2 ++ nl
+        (if e1.drop e2.length != e3 then ["C09.unit_events_leak"] else []) ++
+        -- output only when both units completed their items (an unfinished block makes the framing of the joint message its own case)
+        (if w1 != wantW ∧ !(hasOpenBlock cmds r2) ∧ !(hasOpenBlock cmds r3) then ["C09.unit_output_leak"] else []) ++
+        -- final registers, remainder and queue (codes: the text of a -113 is the unit as written, separator included)
+        (if codes t1 != codes t3 then ["C09.unit_final_state_leak"] else [])
+      | _ => ["C09.malformed_observation"]
     else if mode == "P9" then
       let (e1, w1, t1) := normalise a; let (e2, w2, t2) := normalise b
       (if e1 != e2 then ["C09.events_leak"] else []) ++ (if w1 != w2 then ["C09.output_leaks"] else []) ++
